@@ -2,6 +2,7 @@ package harness
 
 import (
 	"fmt"
+	"sort"
 	"strings"
 
 	"verif/simrt"
@@ -231,6 +232,13 @@ func init() {
 				case 2:
 					w = releaseWaveWF(c)
 				}
+				for i := range w.Nodes {
+					// Process.Spawn = false is a no-op for the library: tasks of such a
+					// process must still run side by side
+					if w.Nodes[i].Kind == KProc && c.Tape.Choose(simrt.StGen, 4, 0) == 1 {
+						w.Nodes[i].NoSpawn = true
+					}
+				}
 				c.Sample = "barrier: " + sample(w)
 				ex := Eval(w)
 				inc := RunInc(w, c.Tape, nil, 0, IncOpts{KillAt: -1, Strategy: strategyOf(c.Tape), Trace: c.Trace, OnStep: slotInvariant(w, c)})
@@ -264,7 +272,28 @@ func init() {
 				}
 				c.Sample = "contention: " + sample(w)
 				ex := Eval(w)
-				inc := RunInc(w, c.Tape, nil, 0, IncOpts{KillAt: -1, Strategy: strategyOf(c.Tape), Trace: c.Trace, OnStep: slotInvariant(w, c)})
+				opts := IncOpts{KillAt: -1, Strategy: strategyOf(c.Tape), Trace: c.Trace, OnStep: slotInvariant(w, c)}
+				if c.Tape.Choose(simrt.StFault, 6, 0) == 1 {
+					// while tasks wait for slots, a declared output of one of them appears
+					// from outside (the user copies a finished result in: reference bytes).
+					// Whether that task then runs or not, no slot may be lost.
+					var outs []string
+					for _, t := range ex.Tasks {
+						for _, p := range t.Outs {
+							if !ex.StreamPaths[Abs(p)] {
+								outs = append(outs, Abs(p))
+							}
+						}
+					}
+					sort.Strings(outs)
+					if len(outs) > 0 {
+						p := outs[c.Tape.Choose(simrt.StFault, len(outs), 0)]
+						opts.InjectAt = 8 * (1 + c.Tape.Choose(simrt.StFault, 64, 0))
+						opts.InjectPath, opts.InjectData = p, ex.Files[p]
+						c.Sample = fmt.Sprintf("%s appears from outside at step %d; %s", strings.TrimPrefix(p, "/work/"), opts.InjectAt, c.Sample)
+					}
+				}
+				inc := RunInc(w, c.Tape, nil, 0, opts)
 				c.Absorb(inc)
 				if v, ok := inconclusiveEnd(inc); ok {
 					return v
